@@ -209,3 +209,39 @@ pub fn gen_trie(rng: &mut Rng, thorough: bool, out: &mut Vec<String>) {
         trie_case(out, rng, if i % 2 == 0 { "exp" } else { "wv1" }, &batches, &queries, members_small && i % 2 == 0);
     }
 }
+
+
+/// the same leaf set inserted in random orders and random splits into sub-batches within ONE epoch
+/// (the epoch field is reset between sub-batches); every run of a group must end in the same tree
+pub fn gen_perm(rng: &mut Rng, thorough: bool, out: &mut Vec<String>) {
+    let groups = if thorough { 12 } else { 4 };
+    let runs = if thorough { 20 } else { 8 };
+    for g in 0..groups {
+        let size = rng.range(2, if g % 3 == 0 { 40 } else { 12 }) as usize;
+        let shared = rng.range(0, 250) as usize;
+        let prefix: Vec<bool> = (0..shared).map(|_| rng.chance(1, 2)).collect();
+        let mut set: Vec<(NodeLabel, String)> = (0..size)
+            .map(|_| (if rng.chance(1, 2) { label256(&prefix, rng) } else { label256(&[], rng) }, val(rng)))
+            .collect();
+        set.sort_by_key(|x| x.0);
+        set.dedup_by_key(|x| x.0);
+        let cfg = if g % 2 == 0 { "wv1" } else { "exp" };
+        out.push(format!("perm.group {g}"));
+        for r in 0..runs {
+            let mut s = set.clone();
+            rng.shuffle(&mut s);
+            out.push(format!("reset {cfg}"));
+            let nb = if r == 0 { 1 } else { rng.range(1, 4) as usize };
+            let chunk = (s.len() + nb - 1) / nb;
+            for (bi, c) in s.chunks(chunk.max(1)).enumerate() {
+                if bi > 0 {
+                    out.push("azks.setepoch 0".into());
+                }
+                let line = c.iter().map(|(l, v)| format!("{} {}", show_label(l), v)).collect::<Vec<_>>().join(" ");
+                out.push(format!("azks.insert dir {line}"));
+            }
+            out.push("azks.root".into());
+        }
+        out.push("perm.end".into());
+    }
+}
